@@ -13,6 +13,7 @@ META = {
                    ' R06.2 also fixes the float order to the IEEE-754 partial_cmp. R06.6 equality (and an explicit ne) answers per path only what the tags allow. R06.7 the specialised instructions apply the same primitive as the generic ones. R06.8 a float literal keeps its bits (no operator applied at compile time before the == de-duplication of the pool). R06.9 operands are decoded as integers/booleans only behind a test of their tag.',
     'not_decided': ['the numerical result of any particular operation', 'IEEE conformance of f64 (trusted to Rust/LLVM)', 'that comparison is a total order'],
 }
+META['explanation'] += ' R06.10 the specialised instructions are selected only where the variable was resolved to a local of the current function.'
 TYPE = 'object::Type'
 
 
